@@ -218,7 +218,12 @@ func c10one(tr *lib.Trace, r *rand.Rand, ci, split int) {
 			if len(qs) > 600 {
 				qs = qs[:600] + "..."
 			}
-			tr.Fail("merge-panic", fmt.Sprintf("%s maxkeylen %d :: %s :: %s", hist, c10maxlen(keys), msg, qs))
+			sig := "merge-panic"
+			if strings.Contains(msg, "too large") {
+				// keys near the maximum size sharing long prefixes: node overflow
+				sig = "merge-panic-node-too-large"
+			}
+			tr.Fail(sig, fmt.Sprintf("%s maxkeylen %d :: %s :: %s", hist, c10maxlen(keys), msg, qs))
 			return
 		}
 		bt = bt2
